@@ -83,6 +83,16 @@ func checkValue(f *spec.Frame, kind int) {
 		return
 	}
 	a, b := libx.Dump(v), libx.Dump(dec)
+	// the decoded value must own its data: a receiver reuses its buffer for
+	// the next datagram while the application still holds this value
+	for i := range got {
+		got[i] ^= 0xa5
+	}
+	if b2 := libx.Dump(dec); b2 != b {
+		c["decoded"], c["decoded_after_buffer_reuse"] = b, b2
+		r.Violate("roundtrip.aliasing", attrs, c, "service %s: the decoded value changes when the input buffer is overwritten afterwards (it aliases the receive buffer): %s -> %s", svcName(f.Service), trunc(b), trunc(b2))
+		return
+	}
 	if a != b {
 		c["decoded"] = b
 		r.Violate("roundtrip.value", attrs, c, "service %s: encoded %s, decoded %s", svcName(f.Service), trunc(a), trunc(b))
